@@ -5,7 +5,9 @@ HERE="$(cd "$(dirname "$0")/.." && pwd)"
 export VERIF_SHRINK_S=${VERIF_SHRINK_S:-8}
 for d in "$HERE"/seeded/${1:-*}/; do
   [ -f "$d/patch.diff" ] || continue
-  for id in ${IDS:-C02 C10 C11 C12 C16 C19}; do
+  ids="${IDS:-C02 C10 C11 C12 C16 C19}"
+  if [ "${OWN:-0}" = "1" ]; then ids=$(basename "$d" | cut -c1-3); fi      # OWN=1: only the check of the change's own property
+  for id in $ids; do
     "$HERE"/tools/try_mutant.sh "$d/patch.diff" - $id 2>&1 | grep "^MUTANT" | sed "s#^MUTANT [^ ]*#MATRIX $(basename $d)#" | cut -c1-220
   done
 done
